@@ -67,6 +67,7 @@ fn main() {
         usage();
     }
     kernel::install_panic_hook();
+
     if std::env::var("VERIF_NO_TRACE").is_err() {
         trace::install();
     }
